@@ -46,6 +46,10 @@ def generate(rng, run, tier):
         for k in ("consumer", "frontend", "interleave"):
             plan.pop(k, None)
         return plan
+    return gen_grouped(rng)
+
+
+def gen_grouped(rng):
     integration = rng.choice(["generic", "generic", "rdflib"])
     physical = rng.choice(["TRIPLES", "QUADS", "GRAPHS"])
     stmts, flags, sizes, _ = c01.gen_workload(rng, physical, rdflib_safe=integration == "rdflib", max_n=24)
@@ -190,8 +194,17 @@ def grouped_write_side(plan, sim):
     if 0 in groups:
         sim.count("empty_inputs")
     sim.event("grouped_write", tuple(groups), cfg["entry"])
-    out = io.BytesIO()
     try:
+        data = write_grouped(cfg, stmts, groups)
+    except Exception as e:  # noqa: BLE001
+        return [{"clause": "C07.grouped_write_raised", "sig": {"exc": type(e).__name__},
+                 "msg": f"{type(e).__name__}: {e}"}], None
+    return judge_grouped(plan, sim, cfg, integration, stmts, groups, data)
+
+
+def write_grouped(cfg, stmts, groups):
+    out = io.BytesIO()
+    if True:
         if cfg["entry"] == "grouped_file":
             nodes.integ_mod(cfg).grouped_stream_to_file(nodes.group_gen(cfg, stmts, [], groups), out,
                                                         options=nodes.make_options(cfg))
@@ -202,10 +215,10 @@ def grouped_write_side(plan, sim):
             for sink in nodes.group_gen(cfg, stmts, [], groups):
                 for fr in m.stream_frames(stream, sink):
                     write_delimited(fr, out)
-    except Exception as e:  # noqa: BLE001
-        return [{"clause": "C07.grouped_write_raised", "sig": {"exc": type(e).__name__},
-                 "msg": f"{type(e).__name__}: {e}"}], None
-    data = out.getvalue()
+    return out.getvalue()
+
+
+def judge_grouped(plan, sim, cfg, integration, stmts, groups, data):
     ref = refdec.decode_stream(data, True, strict=True)
     if not ref.ok:
         return [{"clause": "C07.grouped_write_invalid", "sig": {"cls": ref.error["cls"]}, "msg": str(ref.error)}], None
